@@ -28,6 +28,10 @@ pub enum Scene {
 	HandleDropped,
 	StoppedWithFade,
 	NaturalEnd,
+	/// the sound itself is paused (its track keeps processing it) when the decoder fails
+	PausedSound,
+	/// the sound waits for a clock that is never started when the decoder fails
+	WaitingForClock,
 }
 
 #[derive(Clone, Copy, Debug, PartialEq)]
@@ -73,15 +77,27 @@ enum End {
 /// a violation when instead the decode loop is seen cycling (>= 300 further step/wait hook hits) with
 /// nothing left to do; inconclusive if neither within the outer watchdog.
 fn await_thread_end(obs: &DecoderObs, st: &DecState, why: &str) -> Result<End, String> {
+	use std::sync::atomic::{AtomicBool, AtomicU64};
 	let base = st.steps.load(Ordering::SeqCst) + st.waits.load(Ordering::SeqCst);
 	let t0 = Instant::now();
-	loop {
+	// reference thread: sleeps 1 ms at a time exactly like the decoder thread's wait loop; the number of sleeps it completed
+	// measures how many chances to run a thread of that kind was given (a logical clock that scales with machine load)
+	let quanta = Arc::new(AtomicU64::new(0));
+	let done = Arc::new(AtomicBool::new(false));
+	let (q2, d2) = (quanta.clone(), done.clone());
+	let reference = std::thread::spawn(move || {
+		while !d2.load(Ordering::SeqCst) {
+			std::thread::sleep(Duration::from_millis(1));
+			q2.fetch_add(1, Ordering::SeqCst);
+		}
+	});
+	let res = loop {
 		if obs.dropped.load(Ordering::SeqCst) {
-			return Ok(End::Ok);
+			break Ok(End::Ok);
 		}
 		let now = st.steps.load(Ordering::SeqCst) + st.waits.load(Ordering::SeqCst);
 		if now >= base + 300 {
-			return Err(format!(
+			break Err(format!(
 				"decoder thread still cycling ({} further decode-loop iterations, {} waits, {} errors) and its decoder not released although {}",
 				now - base,
 				st.waits.load(Ordering::SeqCst),
@@ -89,12 +105,19 @@ fn await_thread_end(obs: &DecoderObs, st: &DecState, why: &str) -> Result<End, S
 				why
 			));
 		}
-		if t0.elapsed() > Duration::from_secs(4) {
-			return Ok(End::Inconclusive(format!("no Drop and no loop activity within 4 s ({})", why)));
+		let q = quanta.load(Ordering::SeqCst);
+		if q >= 1500 && now == base {
+			break Err(format!("decoder thread neither ended nor looked at the sound's state while a reference thread completed {} sleeps of 1 ms (its own wait quantum): it is parked without polling, its decoder is not released although {}", q, why));
+		}
+		if t0.elapsed() > Duration::from_secs(20) {
+			break Ok(End::Inconclusive(format!("no Drop within 20 s ({} reference quanta, {} loop iterations; {})", q, now - base, why)));
 		}
 		crate::monitors::bump();
 		std::thread::sleep(Duration::from_micros(300));
-	}
+	};
+	done.store(true, Ordering::SeqCst);
+	let _ = reference.join();
+	res
 }
 
 pub struct Stats {
@@ -149,9 +172,16 @@ pub fn run_case(c: &CaseSpec, stats: &mut Stats, relax_starved_skip: bool) -> Re
 	}
 	// ---- play according to the scene
 	let mut track = None;
+	let mut _clock_keep = None;
 	let mut handle: Option<StreamingSoundHandle<String>> = None;
 	let play_res: Result<StreamingSoundHandle<String>, PlaySoundError<String>> = match c.scene {
-		Scene::Main | Scene::ManagerDropped | Scene::HandleDropped | Scene::StoppedWithFade | Scene::NaturalEnd => rig.mgr.play(data),
+		Scene::Main | Scene::ManagerDropped | Scene::HandleDropped | Scene::StoppedWithFade | Scene::NaturalEnd | Scene::PausedSound => rig.mgr.play(data),
+		Scene::WaitingForClock => {
+			let clock = rig.mgr.add_clock(kira::clock::ClockSpeed::TicksPerSecond(10.0)).map_err(|_| "clock")?;
+			let d = data.start_time(kira::StartTime::ClockTime(kira::clock::ClockTime::from_ticks_u64(clock.id(), 1)));
+			_clock_keep = Some(clock);
+			rig.mgr.play(d)
+		}
 		Scene::SubTrack | Scene::TrackDropped => {
 			let mut t = rig.mgr.add_sub_track(TrackBuilder::new()).map_err(|_| "track")?;
 			let r = t.play(data);
@@ -238,6 +268,7 @@ pub fn run_case(c: &CaseSpec, stats: &mut Stats, relax_starved_skip: bool) -> Re
 			event_done = true;
 			match c.scene {
 				Scene::StoppedWithFade => h.stop(Tween { duration: Duration::from_millis(5), ..Default::default() }),
+				Scene::PausedSound => h.pause(instant()),
 				Scene::TrackDropped => {
 					track = None;
 					why_end = "the sound's track was dropped".into();
@@ -322,7 +353,9 @@ pub fn run_case(c: &CaseSpec, stats: &mut Stats, relax_starved_skip: bool) -> Re
 			Fault::Seek(k) => obs.seek_calls.load(Ordering::SeqCst) >= k,
 			Fault::None => false,
 		};
-		if fault_hit && error_seen_at.is_none() && st.errors.load(Ordering::SeqCst) > 0 {
+		// the dec.error hook fires just before the decoder thread publishes the error and ends; the callbacks the property
+		// grants are counted from the moment the thread has ended (its decoder dropped), i.e. the error is really published
+		if fault_hit && error_seen_at.is_none() && st.errors.load(Ordering::SeqCst) > 0 && obs.dropped.load(Ordering::SeqCst) {
 			error_seen_at = Some(cb);
 		}
 		if state == PlaybackState::Stopped && stopped_at.is_none() {
@@ -466,22 +499,24 @@ pub fn run_case(c: &CaseSpec, stats: &mut Stats, relax_starved_skip: bool) -> Re
 }
 
 fn gen_case(r: &mut Rng, exhaustive_k: Option<(Fault, Scene)>) -> CaseSpec {
-	let len = r.usize_in(1, 3000);
-	let packet = *r.pick(&[1usize, 7, 64, 500, 4096]);
+	// some streams are longer than the 16384-frame ring, so the decoder thread is idle (ring full) when the sound ends early
+	let long = r.chance(0.15);
+	let len = if long { r.usize_in(17000, 40000) } else { r.usize_in(1, 3000) };
+	let packet = if long { *r.pick(&[500usize, 4096]) } else { *r.pick(&[1usize, 7, 64, 500, 4096]) };
 	let lp = if r.chance(0.3) && len > 2 {
 		let a = r.below(len as u64 - 1) as usize;
 		Some((a, r.usize_in(a + 1, len)))
 	} else {
 		None
 	};
-	let scene = exhaustive_k.map(|x| x.1).unwrap_or_else(|| *r.pick(&[Scene::Main, Scene::SubTrack, Scene::Rejected, Scene::PausedTrack, Scene::TrackDropped, Scene::ManagerDropped, Scene::HandleDropped, Scene::StoppedWithFade, Scene::NaturalEnd]));
+	let scene = exhaustive_k.map(|x| x.1).unwrap_or_else(|| *r.pick(&[Scene::Main, Scene::SubTrack, Scene::Rejected, Scene::PausedTrack, Scene::TrackDropped, Scene::ManagerDropped, Scene::HandleDropped, Scene::StoppedWithFade, Scene::NaturalEnd, Scene::PausedSound, Scene::WaitingForClock]));
 	let fault = exhaustive_k.map(|x| x.0).unwrap_or_else(|| match r.below(4) {
 		0 => Fault::None,
 		1 => Fault::Decode(1 + r.below((len / packet + 2) as u64)),
 		2 => Fault::DecodeFrom(1 + r.below((len / packet + 2) as u64)),
 		_ => Fault::Seek(1 + r.below(3)),
 	});
-	let pace = r.below(4);
+	let pace = if long { 0 } else { r.below(4) };
 	CaseSpec {
 		scene,
 		fault,
@@ -491,7 +526,7 @@ fn gen_case(r: &mut Rng, exhaustive_k: Option<(Fault, Scene)>) -> CaseSpec {
 		slow_us: if pace == 1 { 300 } else { 0 },
 		stalled: pace == 2,
 		chunk: *r.pick(&[16usize, 64, 200]),
-		event_after: r.usize_in(0, 6),
+		event_after: if scene == Scene::PausedSound && r.chance(0.6) { 0 } else { r.usize_in(0, 6) },
 		heavy_main: if pace == 1 && r.chance(0.5) { 4 } else { 0 },
 	}
 }
